@@ -132,10 +132,17 @@ def nodes_for(world, offences):
             continue
         if "symlink" in off and n["t"] == "f":
             n_t += 1
-            tgt = dict(n)
-            tgt["p"] = "$ROOT/targets/t%d.conf" % n_t
-            nodes.append(tgt)
-            n = {"p": n["p"], "t": "l", "to": tgt["p"], "uid": n["uid"], "gid": n["gid"]}
+            earlier = [q for q in consulted_of(world, seen=False)[:max(0, consulted_of(world, seen=False).index(p))] if q != p] if p in consulted_of(world, seen=False) else []
+            earlier = [q for q in earlier if any(m_["t"] == "f" and norm(m_["p"]) == q for m_ in world["nodes"])]
+            single = len(offences) == 1 and list(offences.values())[0] == ["symlink"]      # the enumerated plan "symlink@k"
+            if earlier and single and "symlink" in world["rules"] and (world.get("attr_seed", 0) + n_t) % 2 == 0:
+                # ... a second name of a file that the same read has already consulted
+                n = {"p": n["p"], "t": "l", "to": earlier[-1], "uid": n["uid"], "gid": n["gid"]}
+            else:
+                tgt = dict(n)
+                tgt["p"] = "$ROOT/targets/t%d.conf" % n_t
+                nodes.append(tgt)
+                n = {"p": n["p"], "t": "l", "to": tgt["p"], "uid": n["uid"], "gid": n["gid"]}
         nodes.append(n)
     return nodes
 
@@ -281,6 +288,8 @@ def check(world, plans, results):
         if "__dangling__" in off:
             v.probe("offender_is_a_dangling_link")
             continue        # the tree itself differs from the clean one: nothing to compare after the reset
+        if len(off) == 1 and list(off.values())[0] == ["symlink"]:
+            continue        # the link may lead to ANOTHER consulted file (a second name): followed after the reset, it shows that file's content
         # after the reset every file is accepted again
         if r2["rc"] != b_rc or (b_rc == 0 and view(tagged(plan, res, "dump2")) != b_dump):
             v.fail("reset", "plan %s: after econf_reset_security_settings the read returns rc=%r (unrestricted: %r) or different content" % (label, r2["rc"], b_rc))
